@@ -376,6 +376,19 @@ func (c cfgSub) reify(opts *options) (interface{}, error) {
 	fields := c.c.fields.dict()
 	arr := c.c.fields.array()
 
+	// every setting is evaluated on its own; a failure names the setting that failed
+	reifyEntry := func(v value) (interface{}, error) {
+		opts.activeFields = newFieldSet(parentFields)
+		x, err := v.reify(opts)
+		if err != nil {
+			if _, ok := err.(Error); !ok {
+				ctx := v.Context()
+				err = raisePathErr(err, v.meta(), "", ctx.path("."))
+			}
+		}
+		return x, err
+	}
+
 	switch {
 	case len(fields) == 0 && len(arr) == 0 && arr != nil:
 		// preserve empty arrays
@@ -385,10 +398,8 @@ func (c cfgSub) reify(opts *options) (interface{}, error) {
 	case len(fields) > 0 && len(arr) == 0:
 		m := make(map[string]interface{})
 		for _, k := range sortedKeys(fields) {
-			v := fields[k]
-			opts.activeFields = newFieldSet(parentFields)
 			var err error
-			if m[k], err = v.reify(opts); err != nil {
+			if m[k], err = reifyEntry(fields[k]); err != nil {
 				return nil, err
 			}
 		}
@@ -396,9 +407,8 @@ func (c cfgSub) reify(opts *options) (interface{}, error) {
 	case len(fields) == 0 && len(arr) > 0:
 		m := make([]interface{}, len(arr))
 		for i, v := range arr {
-			opts.activeFields = newFieldSet(parentFields)
 			var err error
-			if m[i], err = v.reify(opts); err != nil {
+			if m[i], err = reifyEntry(v); err != nil {
 				return nil, err
 			}
 		}
@@ -406,17 +416,14 @@ func (c cfgSub) reify(opts *options) (interface{}, error) {
 	default:
 		m := make(map[string]interface{})
 		for _, k := range sortedKeys(fields) {
-			v := fields[k]
-			opts.activeFields = newFieldSet(parentFields)
 			var err error
-			if m[k], err = v.reify(opts); err != nil {
+			if m[k], err = reifyEntry(fields[k]); err != nil {
 				return nil, err
 			}
 		}
 		for i, v := range arr {
-			opts.activeFields = newFieldSet(parentFields)
 			var err error
-			m[fmt.Sprintf("%d", i)], err = v.reify(opts)
+			m[fmt.Sprintf("%d", i)], err = reifyEntry(v)
 			if err != nil {
 				return nil, err
 			}
